@@ -940,6 +940,11 @@ func (r *aeRun) load(fr *frame, addr any, t types.Type) any {
 		if _, isPtr := t.Underlying().(*types.Pointer); isPtr {
 			return avAddr{idx: g, ref: nil, path: []int{-1}} // e.g. *regexp.Regexp held in a global
 		}
+		if isErrorType(t) && g.Pkg != nil && !r.ctx.p.IsRepoPkg(g.Pkg.Pkg) {
+			// a sentinel error of the standard library (strconv.ErrSyntax, io.EOF): set once at
+			// package initialisation to a non-nil value
+			return avIface{avUnknown{"error value"}}
+		}
 		r.oof("load of global %s", g.Name())
 	}
 	if a.ref != nil {
@@ -1596,6 +1601,25 @@ func foldConst(name string, args []any) (any, bool) {
 		b, ok2 := str(1)
 		if ok1 && ok2 {
 			return boolC(strings.Contains(a, b)), true
+		}
+	case name == "HasSuffix":
+		a, ok1 := str(0)
+		b, ok2 := str(1)
+		if ok1 && ok2 {
+			return boolC(strings.HasSuffix(a, b)), true
+		}
+	case name == "EqualFold":
+		a, ok1 := str(0)
+		b, ok2 := str(1)
+		if ok1 && ok2 {
+			return boolC(strings.EqualFold(a, b)), true
+		}
+	case name == "TrimLeft" || name == "TrimRight" || name == "Trim" || name == "TrimPrefix" || name == "TrimSuffix":
+		a, ok1 := str(0)
+		b, ok2 := str(1)
+		if ok1 && ok2 {
+			f := map[string]func(string, string) string{"TrimLeft": strings.TrimLeft, "TrimRight": strings.TrimRight, "Trim": strings.Trim, "TrimPrefix": strings.TrimPrefix, "TrimSuffix": strings.TrimSuffix}[name]
+			return avConst{constant.MakeString(f(a, b))}, true
 		}
 	}
 	return nil, false
